@@ -116,7 +116,8 @@ Inductive msg_case :=
 | MRecEnc (r : recip) (out : option bytes)
 | MRecDec (data : bytes) (out : option recip)
 | MHdr (data : option bytes) (out : option cosemap)
-| MHdrEnc (m : cosemap) (out : option bytes).
+| MHdrEnc (m : cosemap) (out : option bytes)
+| MGetMap (m : cosemap) (l : Z) (ok : bool) (out : option cosemap).
 
 Definition party_eq (a b : party) : bool :=
   obytes_eq (pi_identity a) (pi_identity b) && obytes_eq (pi_nonce a) (pi_nonce b) && obytes_eq (pi_other a) (pi_other b).
@@ -195,4 +196,10 @@ Definition check_msg_case (c : msg_case) : bool :=
                      | None, Some _ => has_other 40 (VMap m)
                      | _, _ => false
                      end
+  | MGetMap m l ok out => match get_map m l with
+                          | Ok None => ok && match out with None => true | Some _ => false end
+                          | Ok (Some r) => ok && match out with Some o => geq 40 (VMap r) (VMap o) | None => false end
+                          | Err => negb ok
+                          | Panic => false
+                          end
   end.
